@@ -106,10 +106,21 @@ def run(chk, replay):
         first = bad[:8]
         o2, b2 = replay_and_judge(chk, [vec_of(e) for e, _ in first])
         again = {json.dumps(vec_of(e), sort_keys=True): why for e, why in b2}
+        again_seq = None
         for e, why in first:
             k = json.dumps(vec_of(e), sort_keys=True)
             if k not in again:
-                raise vlib.Inconclusive("rejected observation did not reproduce: " + k)
+                # accepted when rendered alone: repeat the whole sequence of renders in order (state carried from one
+                # render into the next?)
+                if again_seq is None:
+                    o3, b3 = replay_and_judge(chk, allvec)
+                    again_seq = {json.dumps(vec_of(e3), sort_keys=True): w3 for e3, w3 in b3}
+                if k not in again_seq:
+                    raise vlib.Inconclusive("rejected observation did not reproduce: " + k)
+                chk.violation("after-earlier-renders:" + key_of(e, again_seq[k]),
+                              "real uniform render of %s is rejected (%s) when it follows the earlier renders of the same process, "
+                              "twice in a row, but not when rendered alone" % (k, again_seq[k]), dict(vector=vec_of(e), why=again_seq[k]))
+                continue
             chk.violation(key_of(e, again[k]), "real uniform render of %s rejected: %s" % (k, again[k]),
                           dict(vector=vec_of(e), why=again[k]))
     if flagged and not bad:
